@@ -278,10 +278,10 @@ template <class NS> static void addresolves(int n, int m0max, bool fullD0) {
 // long merge cascades and deep splits only come into play with many variables.  Every member of a parametric family: shape x size x desired
 // pattern x weights x scales x solver; oracle = Hildreth's dual ascent (oracle/qp.h), cross-checked against the active-set oracle on n = 8.
 template <class NS> static void families(bool thorough) {
-    ctx.phase(mcx::fmt("structured problems %s: {chain, star, binary tree, braid, chain with equalities} x n in {8,16,40(,100)} and independent three-variable groups that each need one split, n in {6,15,39,180,330(,600,1002)}; x 5 desired patterns x 2 weightings x 2 scalings x {incremental, static} solver, solve + two re-solves", NS::name()));
+    ctx.phase(mcx::fmt("structured problems %s: {chain, star, binary tree, braid, chain with equalities, dense DAG, band with implied constraints} x n in {8,16,40(,100)} and independent three-variable groups that each need one split, n in {6,15,39,180,330(,600,1002)}; x 5 desired patterns x 2 weightings x 2 scalings x {incremental, static} solver, solve + two re-solves", NS::name()));
     vector<int> sizes = {8, 16, 40}; if (thorough) sizes.push_back(100);
     vector<int> gsizes = {6, 15, 39, 180, 330}; if (thorough) { gsizes.push_back(600); gsizes.push_back(1002); }
-    for (int shape = 0; shape < 6; shape++) for (int n : (shape == 5 ? gsizes : sizes)) for (int dp = 0; dp < 5; dp++) for (int wv = 0; wv < 2; wv++) for (int sv = 0; sv < 2; sv++) for (int stat = 0; stat < (std::is_same<typename NS::Inc, typename NS::Stat>::value ? 1 : 2); stat++) {
+    for (int shape = 0; shape < 8; shape++) for (int n : (shape == 5 ? gsizes : sizes)) for (int dp = 0; dp < 5; dp++) for (int wv = 0; wv < 2; wv++) for (int sv = 0; sv < 2; sv++) for (int stat = 0; stat < (std::is_same<typename NS::Inc, typename NS::Stat>::value ? 1 : 2); stat++) {
         if (stat && shape == 4) continue;   // the static solver with equalities is KF-C01-1 (reported by the enumerated instances)
         if (ctx.stopped()) return; if (!ctx.next()) continue;
         Inst I; I.n = n; I.w.assign(n, 1); I.sc.assign(n, 1); I.d.assign(n, 0);
@@ -293,6 +293,8 @@ template <class NS> static void families(bool thorough) {
             if (shape == 2) { if (2 * i + 1 < n) I.cs.push_back({i, 2 * i + 1, 2, false}); if (2 * i + 2 < n) I.cs.push_back({i, 2 * i + 2, 3, false}); }
             if (shape == 3) { if (i + 1 < n) I.cs.push_back({i, i + 1, 1, false}); if (i + 3 < n) I.cs.push_back({i, i + 3, 4.5, false}); }
             if (shape == 4 && i + 1 < n) I.cs.push_back({i, i + 1, 2, i % 3 == 1});
+            if (shape == 6) for (int j = i + 1; j < n; j++) if ((i + j) % 3 == 0) I.cs.push_back({i, j, 1.0 + ((i * j) % 4), false});            // dense DAG
+            if (shape == 7) for (int j = i + 1; j < n && j <= i + 4; j++) if ((i * 3 + j) % 2 == 0) I.cs.push_back({i, j, 0.5 * (j - i), false});     // band with redundant (implied) constraints
             if (shape == 5 && i % 3 == 0) { I.cs.push_back({i, i + 1, 3, false}); I.cs.push_back({i, i + 2, 3, false}); }
         }
         if (shape == 5) for (int i = 0; i < n; i++) { static const double base[3] = {5, 3, 6}; I.d[i] = base[i % 3] + (i / 3) * 0.01 + (dp == 0 ? 0 : dp == 1 ? (i % 3 == 1) * 0.5 : dp == 2 ? (i / 3) % 2 : dp == 3 ? -(i % 3) * 0.25 : ((i / 3) * 7) % 5 * 0.1); }
